@@ -187,7 +187,13 @@ fn explore(which: &str, seed: u64, max_steps: usize, stick: u64, spur: u64, weak
         let (m, r, wh) = (mutex.clone(), rw.clone(), which.to_string());
         handles.push(std::thread::spawn(move || {
             TID.with(|t| t.set(Some(i)));
-            if wh == "mutex" { run_mutex_thread(i, m, p) } else { run_rw_thread(i, r, p) }
+            let res = std::panic::catch_unwind(std::panic::AssertUnwindSafe(|| {
+                if wh == "mutex" { run_mutex_thread(i, m, p) } else { run_rw_thread(i, r, p) }
+            }));
+            if let Err(e) = res {
+                let msg = e.downcast_ref::<String>().cloned().or_else(|| e.downcast_ref::<&str>().map(|s| s.to_string())).unwrap_or_default();
+                book(|b| b.violations.push(format!("panic: t{} panicked: {}", i, msg)));
+            }
             shim::thread_done();
         }));
     }
@@ -197,8 +203,18 @@ fn explore(which: &str, seed: u64, max_steps: usize, stick: u64, spur: u64, weak
     let mut verdict = "complete";
     loop {
         let mut g = SCHED.inner.lock().unwrap();
+        let tw = std::time::Instant::now();
         while g.status.iter().any(|s| matches!(s, Status::Running | Status::NotStarted)) {
-            g = SCHED.cv.wait(g).unwrap();
+            let (g2, _) = SCHED.cv.wait_timeout(g, std::time::Duration::from_millis(500)).unwrap();
+            g = g2;
+            if tw.elapsed().as_secs() >= 10 {
+                // a thread runs without ever reaching a yield point (or died): the harness cannot continue
+                let tail: Vec<String> = g.trace.iter().rev().take(400).rev().cloned().collect();
+                println!("stuck steps={} viol=thread-never-yields:{:?} :: {}", steps, g.status, tail.join(" ; "));
+                use std::io::Write as _;
+                std::io::stdout().flush().unwrap();
+                std::process::exit(4);
+            }
         }
         if g.status.iter().all(|s| *s == Status::Done) {
             break;
@@ -294,6 +310,7 @@ fn explore(which: &str, seed: u64, max_steps: usize, stick: u64, spur: u64, weak
 }
 
 fn main() {
+    std::panic::set_hook(Box::new(|_| {}));
     let stdin = std::io::stdin();
     let stdout = std::io::stdout();
     let mut out = std::io::BufWriter::new(stdout.lock());
